@@ -481,6 +481,44 @@ func trsbCli(file string) ([]trsbRow, error) {
 	return rows, nil
 }
 
+// trsbUse reads func (interp *Interpreter) Use: the right-hand sides of the assignments to
+// interp.binPkg[importPath] (the map a package's symbols live in) and of the assignments
+// interp.binPkg[importPath][s] = ... (the entry-by-entry copy).
+func trsbUse(file string) (whole, entries []string, err error) {
+	f, err := parser.ParseFile(trsbFset, file, nil, 0)
+	if err != nil {
+		return nil, nil, err
+	}
+	found := false
+	for _, d := range f.Decls {
+		fd, ok := d.(*ast.FuncDecl)
+		if !ok || fd.Name.Name != "Use" || fd.Recv == nil {
+			continue
+		}
+		found = true
+		ast.Inspect(fd.Body, func(n ast.Node) bool {
+			as, ok := n.(*ast.AssignStmt)
+			if !ok || len(as.Lhs) != 1 || len(as.Rhs) != 1 {
+				return true
+			}
+			ix, ok := as.Lhs[0].(*ast.IndexExpr)
+			if !ok {
+				return true
+			}
+			if trsbPrint(ix.X) == "interp.binPkg" {
+				whole = append(whole, trsbPrint(as.Rhs[0]))
+			} else if ix2, ok := ix.X.(*ast.IndexExpr); ok && trsbPrint(ix2.X) == "interp.binPkg" {
+				entries = append(entries, trsbPrint(ix.Index)+" <- "+trsbPrint(as.Rhs[0]))
+			}
+			return true
+		})
+	}
+	if !found {
+		return nil, nil, fmt.Errorf("%s: method Use not found", file)
+	}
+	return whole, entries, nil
+}
+
 func trSandbox(args []string) error {
 	fs := flag.NewFlagSet("tr-sandbox", flag.ExitOnError)
 	repo := fs.String("repo", "/repo", "repository root")
@@ -555,7 +593,25 @@ func trSandbox(args []string) error {
 			return err
 		}
 		strList("sb_"+d+"_keys", sortedKeys(c))
+		if d == "unrestricted" {
+			// the rows of the opt-in set that replaces restricted bindings: key -> (name, bound expression)
+			var sets []string
+			for _, k := range sortedKeys(c) {
+				rows := append([]trsbRow(nil), c[k]...)
+				sort.SliceStable(rows, func(i, j int) bool { return rows[i].Name < rows[j].Name })
+				sets = append(sets, fmt.Sprintf("(%s, %s)", coqStr(k), coqPairList(rows)))
+			}
+			fmt.Fprintf(&b, "Definition sb_unrestricted_rows : list (str * list (str * str)) :=\n  [%s].\n", strings.Join(sets, ";\n   "))
+		}
 	}
+
+	// ---- Interpreter.Use: what is stored into interp.binPkg[importPath], and whether the entries are copied one by one
+	useRHS, useCopies, err := trsbUse(filepath.Join(*repo, "interp", "use.go"))
+	if err != nil {
+		return err
+	}
+	strList("sb_use_binpkg_rhs", useRHS)
+	strList("sb_use_entry_copies", useCopies)
 
 	// ---- extract.go restricted table
 	rk, err := mapLitKeys(filepath.Join(*repo, "extract", "extract.go"), "restricted")
